@@ -1,6 +1,7 @@
 from __future__ import annotations
 
 import copy
+import inspect
 import itertools
 from collections import defaultdict
 from collections.abc import Generator, Iterable
@@ -173,11 +174,28 @@ class Structured(Generic[_ItemType]):
             but with all objects transformed under `func`.
         """
 
+        # Determine up-front whether `func` accepts the context argument, so
+        # that a `TypeError` raised *inside* `func` is never mistaken for a
+        # signature mismatch (which would call `func` a second time and mask
+        # the original error).
+        takes_context: Optional[bool]
+        try:
+            inspect.signature(func).bind(None, ())
+            takes_context = True
+        except TypeError:
+            takes_context = False
+        except ValueError:  # no signature available (some builtins)
+            takes_context = None
+
         def apply_func(obj: Any, context: tuple[Union[str, int], ...]) -> Any:
             if recurse and isinstance(obj, Structured):
                 return obj._map(func, recurse=True, as_type=as_type, _context=context)
             if isinstance(obj, tuple):
                 return tuple(apply_func(o, context + (i,)) for i, o in enumerate(obj))
+            if takes_context is True:
+                return func(obj, context)  # type: ignore
+            if takes_context is False:
+                return func(obj)  # type: ignore
             try:
                 return func(obj, context)  # type: ignore
             except TypeError:
